@@ -361,6 +361,11 @@ func TestWorker(t *testing.T) {
 		journal, _ = os.OpenFile(jp, os.O_CREATE|os.O_WRONLY|os.O_TRUNC, 0o644)
 	}
 	wo.Worker = worker
+	var hashLog *os.File
+	if hp := os.Getenv("VERIF_HASHLOG"); hp != "" {
+		hashLog, _ = os.Create(hp)
+		defer hashLog.Close()
+	}
 	var strata [][]int32
 	if p.Strata != nil {
 		strata = p.Strata(tier)
@@ -400,6 +405,9 @@ func TestWorker(t *testing.T) {
 		execRun(t, p, rc)
 		heartbeat.Store(0)
 		wo.Runs++
+		if hashLog != nil {
+			fmt.Fprintf(hashLog, "%d %016x %d %d\n", i, rc.Hash, len(rc.Violations), rc.Steps)
+		}
 		if rc.Infra != "" {
 			wo.Infra = append(wo.Infra, fmt.Sprintf("run %d seed %d: %s", i, seed, rc.Infra))
 			if len(wo.Infra) > 5 {
